@@ -47,6 +47,8 @@ def classes():
             self.size = Size(2, 1)
             self.renders = []  # (frame_offset, whence, size, duration, tag, finalized)
             self.fail_next = None
+            self.reclose = None  # iterator to close() re-entrantly from inside the next _render_
+            self.reclose_result = None
 
         def _get_render_size_(self):
             return self.size
@@ -57,10 +59,19 @@ def classes():
             self.renders.append(
                 (d.frame_offset, d.seek_whence.name, tuple(d.size), d.duration if self.animated else None, tag, render_data.finalized)
             )
+            if self.reclose is not None:
+                it, self.reclose = self.reclose, None
+                try:
+                    it.close()
+                    self.reclose_result = "ok"
+                except Exception as e:  # noqa: BLE001
+                    self.reclose_result = type(e).__name__
             if self.fail_next:
                 kind, self.fail_next = self.fail_next, None
                 if kind == "stop":
                     raise StopIteration
+                if kind == "kbrender":
+                    raise KeyboardInterrupt
                 raise ProbeError("injected render failure")
             if self.frame_count is FrameCount.INDEFINITE and d.iteration:
                 off, wh = d.frame_offset, d.seek_whence
@@ -180,9 +191,12 @@ class RealIter:
         name = op["name"]
         it = self.it
         try:
-            if name in ("next", "next_fails"):
+            if name in ("next", "next_fails", "next_reclose"):
                 if name == "next_fails":
                     self.probe.fail_next = op["kind"]
+                if name == "next_reclose":
+                    self.probe.reclose = it
+                    self.probe.reclose_result = None
                 before = len(self.probe.renders)
                 try:
                     frame = next(it)
@@ -196,10 +210,11 @@ class RealIter:
                 res = {
                     "res": "frame",
                     "num": frame.number,
-                    "dur": frame.duration,
+                    "dur": frame.duration if type(frame.duration) is int else repr(frame.duration),
                     "psize": list(frame.render_size),
                     "rendered": rendered,
                     "seek": [],
+                    "inner": "",
                 }
                 if dec is None or dec[0] == "irregular":
                     res["decode"] = "irregular-output"
@@ -213,6 +228,9 @@ class RealIter:
                 if not self.definite and rendered:
                     r = self.probe.renders[-1]
                     res["seek"] = [r[0], r[1]]
+                if name == "next_reclose":
+                    res["inner"] = self.probe.reclose_result or "not-called"
+                    self.probe.reclose = None
                 return res
             if name == "seek":
                 it.seek(op["off"], Seek[op["whence"]])
@@ -250,7 +268,7 @@ class RealIter:
         return any(r[5] for r in self.probe.renders)
 
 
-FRAME_KEYS = ("num", "dur", "size", "margins", "psize", "args", "rendered", "seek")
+FRAME_KEYS = ("num", "dur", "size", "margins", "psize", "args", "rendered", "seek", "inner")
 
 
 def compare(expected: dict, real: dict) -> str | None:
